@@ -647,6 +647,50 @@ async fn run_task(sh: Rc<Shared>, id: usize, spec: String) {
                 }
             }
         }
+        ["ic", start, period, pattern] => {
+            // an interval whose `tick()` futures are cancelled at their await: `d` = awaited to
+            // completion, `p` = polled once and dropped (the losing branch of a select), `t` = wrapped
+            // in a 2 ms timeout. Every instant that is delivered, by whichever call, is judged with
+            // exact arithmetic: not before `start`, on the `start + k * period` grid, increasing, the
+            // first one `start` itself.
+            let start = sh.off(parse_off(start));
+            let period = Duration::from_millis(period.parse().unwrap());
+            let mut iv = interval_at(start, period);
+            let mut delivered: Vec<Instant> = vec![];
+            let mut n_d = 0;
+            for (j, c) in pattern.chars().enumerate() {
+                let got: Option<Instant> = match c {
+                    'd' => {
+                        n_d += 1;
+                        Some(iv.tick().await)
+                    }
+                    'p' => {
+                        let mut f = std::pin::pin!(iv.tick());
+                        match futures_util::poll!(f.as_mut()) {
+                            Poll::Ready(v) => Some(v),
+                            Poll::Pending => None,
+                        }
+                    }
+                    _ => compio_runtime::time::timeout(Duration::from_millis(2), iv.tick()).await.ok(),
+                };
+                let Some(v) = got else { continue };
+                let what = format!("{spec} call {j} ({c})");
+                sh.judge(&what, v);
+                if v < start {
+                    sh.fail("C09:interval-early", format!("{what}: tick delivered {:?} before the interval's start", start - v));
+                } else if (v - start).as_nanos() % period.as_nanos() != 0 {
+                    sh.fail("C09:interval-misaligned", format!("{what}: {:?} after start, off the start + k * period grid", v - start));
+                }
+                if delivered.is_empty() && v != start {
+                    sh.fail("C09:interval-first", format!("{what}: the first tick delivered is not `start`"));
+                }
+                if delivered.last().is_some_and(|p| v <= *p) {
+                    sh.fail("C09:interval-monotone", format!("{what}"));
+                }
+                delivered.push(v);
+            }
+            format!("ticks#{n_d}")
+        }
         ["n", count, every] => {
             // wake-ups from another thread: the driver returns from `poll` before the timeout, the
             // timers of the other tasks must not fire because of that
@@ -758,6 +802,7 @@ fn horizon_ms(tasks: &[&str]) -> u64 {
                 }
             }
             ["n", c, e] => h = h.max(parse_off(c) * parse_off(e) / 10 + 1),
+            ["ic", s, p, pat] => h = h.max(parse_off(s).max(0) + (pat.len() as i64 + 1) * (parse_off(p) + 2)),
             ["i", s, p, n, w] => {
                 let (s, p, n, w) = (parse_off(s).max(0), parse_off(p), parse_off(n), parse_off(w));
                 h = h.max(s + (n + 1) * (p + w + p));
@@ -889,7 +934,7 @@ fn run_rt_once(drv: &str, lp: &str, tasks_s: &str) -> RtOut {
     out.disturbed = sh.max_late.get() > DISTURBED || stalled_within(sh.t0, Instant::now()) > DISTURBED;
     out.tags.push(format!("rt:{drv}:{lp}"));
     for t in &tasks {
-        out.tags.push(format!("rt:task-{}", &t[..1]));
+        out.tags.push(format!("rt:task-{}", t.split(',').next().unwrap()));
     }
     out
 }
@@ -1229,6 +1274,24 @@ fn gen_rt_line(rng: &mut Rng) -> String {
             }
             7 => format!("t,n,{}", near(rng)),
             8 => format!("t,r,{}", near(rng)),
+            9 if rng.chance(1, 2) => {
+                // cancelled tick futures: the start lies in the future, the first call(s) are dropped
+                // while pending, later ones too
+                let start = rng.range(8, 40);
+                let period = rng.range(5, 20);
+                let mut pat = String::new();
+                for _ in 0..rng.range(1, 3) {
+                    pat.push(*rng.pick(&['p', 't']));
+                }
+                for _ in 0..rng.range(2, 5) {
+                    pat.push(*rng.pick(&['d', 'd', 'd', 'p', 't']));
+                }
+                if !pat.contains('d') {
+                    pat.push('d');
+                }
+                pat.push('d');
+                format!("ic,{start},{period},{pat}")
+            }
             9 => {
                 // short periods: only the number of ticks is predicted, the monitors judge the instants
                 format!("i,{},{},{},0", near(rng), rng.range(2, 12), rng.range(1, 5))
